@@ -240,6 +240,31 @@ class DriverFailure(Exception):
     pass
 
 
+def anchor_digests(pid: str) -> dict:
+    """sha256 prefixes of the property's anchored source files in REPO's working tree (informational:
+    tells a reader which source text this run's correspondence was made against)."""
+    out = {}
+    try:
+        for line in (VERIF / "properties.jsonl").read_text().splitlines():
+            p = json.loads(line)
+            if p["id"] == pid:
+                for f in p["anchors"]["files"]:
+                    fp = REPO / f
+                    out[f] = hashlib.sha256(fp.read_bytes()).hexdigest()[:12] if fp.exists() else None
+    except Exception:
+        pass
+    return out
+
+
+def repo_head() -> str:
+    try:
+        p = subprocess.run(["git", "-C", str(REPO), "rev-parse", "--short", "HEAD"], capture_output=True, text=True, timeout=20)
+        d = subprocess.run(["git", "-C", str(REPO), "status", "--porcelain", "--untracked-files=no"], capture_output=True, text=True, timeout=20)
+        return p.stdout.strip() + ("+dirty" if d.stdout.strip() else "")
+    except Exception:
+        return "unknown"
+
+
 # --------------------------------------------------------------------------------------
 # known findings
 
@@ -508,6 +533,8 @@ def run_property(pid: str, tier: str, seed: int, replay: str | None = None) -> i
                 + ("; lake env leanchecker " + " ".join(targets) if tier == "thorough" else ""),
                 "trusted_base": TRUSTED_BASE + list(meta.get("trusted", [])),
                 "gen_digest": proof_state["gen_digest"],
+                "anchor_file_digests": anchor_digests(pid),
+                "repo_head": repo_head(),
                 "evaluations": ctx.evaluations,
                 "distinct_nontrivial": len(ctx.distinct),
                 "rule": meta.get("rule", ""),
